@@ -49,11 +49,12 @@ Record st := {
   decs : nat;            (* dialConnFor goroutines between tryDeliver(nil, err) and decConnsCount *)
   closing : list nat;    (* CloseConn: inside cc.c.Close(); decConnsCount comes after it, the slot is still counted *)
   next : nat;            (* next connection id *)
+  closelog : list nat;   (* every conn whose Close() has been called, in call order (history variable) *)
   clock : Z }.
 
 Definition init : st :=
   {| cnt := 0; idle := []; waitq := []; wants := []; lent := []; rel := []; scratch := [];
-     dials := []; decs := 0; closing := []; next := 0; clock := 0 |}.
+     dials := []; decs := 0; closing := []; next := 0; closelog := []; clock := 0 |}.
 
 Inductive label :=
 | LAcquire (tmo : Z) (ovr : bool)  (* AcquireConn, first c.connsLock region (a new requester) *)
@@ -66,7 +67,9 @@ Inductive label :=
 | LRelease (c : nat)               (* ReleaseConn(c) by whoever holds c *)
 | LClose (c : nat)                 (* CloseConn(c) is called: cc.c.Close() starts *)
 | LCloseFin (c : nat)              (* CloseConn(c): cc.c.Close() returned, then decConnsCount *)
-| LCleanIdle (k : nat)             (* connsCleaner / CloseIdleConnections: take the first k idle conns out of c.conns *)
+| LCleanIdle (k : nat)             (* connsCleaner / CloseIdleConnections, the region under connsLock: a private copy (scratch) of the
+                                      first k idle conns is taken and they are removed from c.conns; the CloseConn calls on the
+                                      copy are separate LClose / LCloseFin steps, interleavable with every other label *)
 | LTick.                           (* one unit of time passes *)
 
 (* ---- list helpers ---- *)
@@ -118,40 +121,43 @@ Fixpoint clear_front (ws : list want) (q : list nat) : list nat :=
 (* ---- field setters ---- *)
 Definition with_cnt (s : st) (v : Z) : st :=
   {| cnt := v; idle := idle s; waitq := waitq s; wants := wants s; lent := lent s; rel := rel s; scratch := scratch s;
-     dials := dials s; decs := decs s; closing := closing s; next := next s; clock := clock s |}.
+     dials := dials s; decs := decs s; closing := closing s; next := next s; closelog := closelog s; clock := clock s |}.
 Definition with_idle (s : st) (v : list nat) : st :=
   {| cnt := cnt s; idle := v; waitq := waitq s; wants := wants s; lent := lent s; rel := rel s; scratch := scratch s;
-     dials := dials s; decs := decs s; closing := closing s; next := next s; clock := clock s |}.
+     dials := dials s; decs := decs s; closing := closing s; next := next s; closelog := closelog s; clock := clock s |}.
 Definition with_waitq (s : st) (v : list nat) : st :=
   {| cnt := cnt s; idle := idle s; waitq := v; wants := wants s; lent := lent s; rel := rel s; scratch := scratch s;
-     dials := dials s; decs := decs s; closing := closing s; next := next s; clock := clock s |}.
+     dials := dials s; decs := decs s; closing := closing s; next := next s; closelog := closelog s; clock := clock s |}.
 Definition with_wants (s : st) (v : list want) : st :=
   {| cnt := cnt s; idle := idle s; waitq := waitq s; wants := v; lent := lent s; rel := rel s; scratch := scratch s;
-     dials := dials s; decs := decs s; closing := closing s; next := next s; clock := clock s |}.
+     dials := dials s; decs := decs s; closing := closing s; next := next s; closelog := closelog s; clock := clock s |}.
 Definition with_lent (s : st) (v : list nat) : st :=
   {| cnt := cnt s; idle := idle s; waitq := waitq s; wants := wants s; lent := v; rel := rel s; scratch := scratch s;
-     dials := dials s; decs := decs s; closing := closing s; next := next s; clock := clock s |}.
+     dials := dials s; decs := decs s; closing := closing s; next := next s; closelog := closelog s; clock := clock s |}.
 Definition with_rel (s : st) (v : list nat) : st :=
   {| cnt := cnt s; idle := idle s; waitq := waitq s; wants := wants s; lent := lent s; rel := v; scratch := scratch s;
-     dials := dials s; decs := decs s; closing := closing s; next := next s; clock := clock s |}.
+     dials := dials s; decs := decs s; closing := closing s; next := next s; closelog := closelog s; clock := clock s |}.
 Definition with_scratch (s : st) (v : list nat) : st :=
   {| cnt := cnt s; idle := idle s; waitq := waitq s; wants := wants s; lent := lent s; rel := rel s; scratch := v;
-     dials := dials s; decs := decs s; closing := closing s; next := next s; clock := clock s |}.
+     dials := dials s; decs := decs s; closing := closing s; next := next s; closelog := closelog s; clock := clock s |}.
 Definition with_dials (s : st) (v : list dtask) : st :=
   {| cnt := cnt s; idle := idle s; waitq := waitq s; wants := wants s; lent := lent s; rel := rel s; scratch := scratch s;
-     dials := v; decs := decs s; closing := closing s; next := next s; clock := clock s |}.
+     dials := v; decs := decs s; closing := closing s; next := next s; closelog := closelog s; clock := clock s |}.
 Definition with_decs (s : st) (v : nat) : st :=
   {| cnt := cnt s; idle := idle s; waitq := waitq s; wants := wants s; lent := lent s; rel := rel s; scratch := scratch s;
-     dials := dials s; decs := v; closing := closing s; next := next s; clock := clock s |}.
+     dials := dials s; decs := v; closing := closing s; next := next s; closelog := closelog s; clock := clock s |}.
 Definition with_closing (s : st) (v : list nat) : st :=
   {| cnt := cnt s; idle := idle s; waitq := waitq s; wants := wants s; lent := lent s; rel := rel s; scratch := scratch s;
-     dials := dials s; decs := decs s; closing := v; next := next s; clock := clock s |}.
+     dials := dials s; decs := decs s; closing := v; next := next s; closelog := closelog s; clock := clock s |}.
 Definition with_next (s : st) (v : nat) : st :=
   {| cnt := cnt s; idle := idle s; waitq := waitq s; wants := wants s; lent := lent s; rel := rel s; scratch := scratch s;
-     dials := dials s; decs := decs s; closing := closing s; next := v; clock := clock s |}.
+     dials := dials s; decs := decs s; closing := closing s; next := v; closelog := closelog s; clock := clock s |}.
+Definition with_closelog (s : st) (v : list nat) : st :=
+  {| cnt := cnt s; idle := idle s; waitq := waitq s; wants := wants s; lent := lent s; rel := rel s; scratch := scratch s;
+     dials := dials s; decs := decs s; closing := closing s; next := next s; closelog := v; clock := clock s |}.
 Definition with_clock (s : st) (v : Z) : st :=
   {| cnt := cnt s; idle := idle s; waitq := waitq s; wants := wants s; lent := lent s; rel := rel s; scratch := scratch s;
-     dials := dials s; decs := decs s; closing := closing s; next := next s; clock := v |}.
+     dials := dials s; decs := decs s; closing := closing s; next := next s; closelog := closelog s; clock := v |}.
 
 (* ---- the lock regions ---- *)
 
@@ -259,9 +265,9 @@ Definition step (cf : cfg) (s : st) (l : label) : option st :=
       else None
   | LClose c =>
       if memb c (lent s) then
-        let s1 := with_lent s (remove_one c (lent s)) in Some (with_closing s1 (closing s1 ++ [c]))
+        let s1 := with_lent s (remove_one c (lent s)) in Some (with_closelog (with_closing s1 (closing s1 ++ [c])) (closelog s ++ [c]))
       else if memb c (scratch s) then
-        let s1 := with_scratch s (remove_one c (scratch s)) in Some (with_closing s1 (closing s1 ++ [c]))
+        let s1 := with_scratch s (remove_one c (scratch s)) in Some (with_closelog (with_closing s1 (closing s1 ++ [c])) (closelog s ++ [c]))
       else None
   | LCloseFin c =>
       if memb c (closing s) then Some (dec_conns_count cf (with_closing s (remove_one c (closing s)))) else None
